@@ -164,13 +164,14 @@ ex2 = ck.executor('tensor_chain', unroll=40, default_maxlen=2, max_paths=100000)
 ex2.generic_subst = {'W': 'FileWriter'}
 for kk in ('RaftNode::is_peer_healthy', 'RaftNode::geometric_vote_bias', '<LogEntry as Clone>::clone', 'FastPathState::clear_leader', 'FastPathValidator::reset',
            'FastPathState::add_embedding', 'FastPathValidator::record_validation', 'RaftStats::record_fast_path', 'RaftStats::record_full_validation',
-           'RaftStats::record_rejected', 'FastPathValidator::check_fast_path', 'FastPathState::get_embeddings', 'SparseVector::to_dense', '<SparseVector as Clone>::clone'):
+           'RaftStats::record_rejected', 'FastPathValidator::check_fast_path', 'FastPathState::get_embeddings', 'SparseVector::to_dense', '<SparseVector as Clone>::clone',
+           'QuorumTracker::record_success', 'QuorumTracker::record_failure', 'QuorumTracker::mark_reachable', 'RaftNode::stop_heartbeat_task'):
     ex2.extra_models[kk] = ex.extra_models[kk]
 ex2.extra_models['RaftWal::check_space'] = lambda c: ok(UNIT)
 sc2 = WalScenario(ck, ex2, 'RaftWal::open', 'RaftWal::append', 'RaftWal::replay', 'RaftWalEntry')
 TV = P.variant_index('RaftWalEntry', 'TermAndVote')
 node_runs = 0
-for handler in ('request_vote', 'start_election', 'append_entries'):
+for handler in ('request_vote', 'start_election', 'append_entries', 'append_entries_response', 'request_vote_response'):
     for nlog in (0, 1):
         st = ex2.new_state()
         st.env['codec_len'] = 2
@@ -202,6 +203,15 @@ for handler in ('request_vote', 'start_election', 'append_entries'):
             call = ('RaftNode::handle_request_vote', [st.roots['nodeptr'], ref(frm), ref(msg)])
         elif handler == 'start_election':
             call = ('RaftNode::start_election', [st.roots['nodeptr']])
+        elif handler == 'append_entries_response':
+            msg = st.fresh('AppendEntriesResponse', 'aer')
+            # only the step-down branch writes the log file: a response of a higher term (the bookkeeping branches are C01's)
+            st.assume(z3.UGT(msg.load(F('AppendEntriesResponse', 'term'), 'u64', st).v, N.term0.v))
+            call = ('RaftNode::handle_append_entries_response', [st.roots['nodeptr'], ref(frm), ref(msg)])
+        elif handler == 'request_vote_response':
+            msg = st.fresh('RequestVoteResponse', 'rvr')
+            st.assume(z3.UGT(msg.load(F('RequestVoteResponse', 'term'), 'u64', st).v, N.term0.v))
+            call = ('RaftNode::handle_request_vote_response', [st.roots['nodeptr'], ref(frm), ref(msg)])
         else:
             msg = st.fresh('AppendEntries', 'ae')
             msg.fields[F('AppendEntries', 'entries')] = Seq('LogEntry', [])
